@@ -2,7 +2,7 @@
 (* TraceP for C11: every removal of a recovery mark ("clear"), every mark     *)
 (* creation ("mark") and the end state of the marked host ("end") observed    *)
 (* while the REAL recovery check and manager ran.                             *)
-EXTENDS Integers, Sequences, Json, TLC
+EXTENDS Recovery, Sequences, Json, TLC
 Rows == ndJsonDeserialize("rows.ndjson")
 VARIABLE i
 Init == i \in 1..Len(Rows)
@@ -26,4 +26,10 @@ C11_CleanReleased ==
 C11_Marked == R.kind = "mustmark" => R.markseen
 \* while marked (and not the recorded master) never listed, never promoted
 C11_Excluded == R.kind = "listed" => ~R.markedlisted
+\* decision rows: the REAL checkRecovery run once (twice for the long-stuck cells) on one cell of the observation product
+DObs == [rfile |-> R.rfile, status |-> R.status, stuck |-> R.stuck, stucklong |-> R.stucklong, ismaster |-> R.ismaster,
+         rel |-> R.rel, replerr |-> R.replerr, ro |-> R.ro]
+Conf_Decision == R.kind = "decide" => R.decision = Decide(DObs)
+C11_DecisionClearOnlyClean == R.kind = "decide" /\ R.decision = "clear" => (R.status /\ R.ro /\ R.rel = "within" /\ ~R.replerr)
+C11_DecisionAheadResetup == (R.kind = "decide" /\ ~R.rfile /\ R.status /\ ~R.stuck /\ (R.rel = "ahead" \/ R.replerr)) => R.decision = "resetup"
 =============================================================================
